@@ -857,6 +857,8 @@ class Rewriter:
         b = self.sub('R25:forget', r'\bmem::forget\(self\)', 'vec_forget(self.vec)', b)
         b = self.sub('R25:ok-pattern', r'\bOk\(\.\.\) =>', 'Ok(_) =>', b)
         b = self.sub('R12:thread-heap', r'\bself\.vec\.capacity\(\)', 'self.vec.capacity(hs)', b)
+        b = self.sub('R25:owned-item', r'\bself\.push_str\(&s\)', 'self.push_str(s)', b)
+        b = self.sub('R25:cloned-chars', r'\bself\.extend\(iter\.into_iter\(\)\.cloned\(\)\)', 'self.extend_chars(hs, iter.into_iter())', b)
         for name in ['push_str', 'push', 'reserve']:
             b = self.map_calls(b, r'\bself\.%s' % name, lambda m_, a, name=name: None if (a and a[0] == 'hs') else 'self.%s(%s)' % (name, ', '.join(['hs'] + a)), 'R12:thread-heap')
         # model types / constructors
